@@ -34,14 +34,15 @@ ANCHORS = ["let", "HashedIterable.__iter__", "ResultQuantifier.evaluate", "Varia
            "symbolic_function", "Predicate.__new__", "CanBehaveLikeAVariable.__getattr__"]
 
 FAMILIES = [("single", 25), ("nested2", 15), ("core", 20), ("rich", 15), ("flat", 6), ("sub", 4), ("E1", 3), ("E2", 3),
-            ("forall", 3), ("msb", 3), ("rule", 2), ("match", 3), ("literal", 4)]
+            ("forall", 3), ("msb", 3), ("rule", 2), ("match", 3), ("literal", 4), ("one_object", 2)]
 
 
 def plan(tier):
     return {"cases": 5000 if tier == "quick" else 100000, "shards": 16, "case_timeout": 30, "shard_timeout": 3000,
             "min_nontrivial": 150,
             "min_counters": {"events_logged": 20000, "prefix_checks": 5000, "abs_bound_checks": 1500, "reevaluation_checks": 500,
-                             "build_checks": 3000, "pull_events": 5000, "long_domain_cases_with_17_or_more_results": 30, "build_checks_with_a_collection_domain": 500}}
+                             "build_checks": 3000, "pull_events": 5000, "long_domain_cases_with_17_or_more_results": 30, "build_checks_with_a_collection_domain": 500,
+                             "build_checks_with_one_object_as_the_domain": 30}}
 
 
 def setup(ctx):
@@ -108,7 +109,10 @@ def gen(rng, tier, ctx):
 
 def witnesses():
     world = [{"cls": "P", "a": 1, "b": 0, "items": [], "kids": [], "ref": None, "d": {"k": 0}, "name": f"o{i}"} for i in range(4)]
-    return {"product-materialises-domain": {
+    return {"single-object-domain-probed-while-building": {
+        "world": world, "vars": [{"name": "x", "type": "P", "dom": [0, 1, 2, 3], "kind": "gen"}], "derived": [],
+        "cond": None, "select": [["var", "x"]], "mode": "entity", "family": "one_object", "template": "one_object", "tseed": 1},
+        "product-materialises-domain": {
         "world": world, "vars": [{"name": "x", "type": "P", "dom": [0, 1, 2, 3], "kind": "gen"}], "derived": [],
         "cond": None, "select": [["var", "x"]], "mode": "entity", "family": "single"},
         "product-materialises-domain-predicate-first": {
@@ -139,6 +143,17 @@ def construct_template(spec, lm):
     objs = G.make_world(spec, lm)
     lm.LOG.clear()
     items = [objs[i] for i in spec["vars"][0]["dom"]]
+    if spec["template"] == "one_object":
+        # a single object as the domain (let(World, world)): it is not asked for its truth value, its length, whether it
+        # is iterable or anything else while the query is built
+        obj = items[spec["tseed"] % len(items)]
+        x = let(lm.P, obj, name="x")
+        q = an(entity(x, x.a >= -10 ** 9)) if spec["tseed"] % 2 else an(entity(x))
+        built = list(lm.LOG)
+        res = list(q.evaluate())
+        if len(res) != 1 or res[0] is not obj:
+            raise AssertionError(f"let(P, <one object>) ranges over {res!r}, not over the object")
+        return built, 1
     x = let(lm.P, lm.logging_domain({"name": "x"}, items), name="x")
     if spec["template"] == "rule":
         v = inference(lm.V)()
@@ -354,6 +369,7 @@ def run(spec, ctx):
             recover(ctx)
             return {"status": "fail", "kind": "template-exception", "key": None, "detail": repr(e)[:300]}
         C["build_checks"] += 1
+        C["build_checks_with_one_object_as_the_domain"] += spec["template"] == "one_object"
         if built:
             return {"status": "fail", "kind": "build-time-event", "key": None,
                     "detail": f"constructing a {spec['template']} evaluated user data: {built[:5]}"}
